@@ -262,9 +262,37 @@ func RunLeaf(w *World, q *QueryDef, leaf *LeafDef, receivers []string) ([]*proto
 // are produced twice from the same points (reading one consumes it): once for the record, once
 // for the real LeafReduceContext.
 func RunLeafRec(w *World, q *QueryDef, leaf *LeafDef, receivers []string) ([]*protoCommonV1.TaskResponse, []string, error) {
+	rs, rec, _, err := RunLeafPlan(w, q, leaf, receivers)
+	return rs, rec, err
+}
+
+// PlanOp is the `plan` protocol line of one leaf and the real metadata lookup's outcome for it.
+type PlanOp struct{ Op, Out string }
+
+// RunLeafPlan is RunLeafRec that also reports the metadata-lookup step for the model.
+func RunLeafPlan(w *World, q *QueryDef, leaf *LeafDef, receivers []string) ([]*protoCommonV1.TaskResponse, []string, PlanOp, error) {
 	st, err := wireCopy(q.statement(w))
 	if err != nil {
-		return nil, nil, err
+		return nil, nil, PlanOp{}, err
+	}
+	var plan PlanOp
+	{
+		var sel, sch []string
+		for _, s := range q.Selects {
+			sel = append(sel, fmt.Sprintf("%d:%s", int(s.Func), s.Field))
+		}
+		schema := "none"
+		if !leaf.NoMetric {
+			for _, fi := range leaf.KnownFields {
+				sch = append(sch, fmt.Sprintf("%s:%d", w.Fields[fi].Name, w.Fields[fi].Type))
+			}
+			schema = joinOrDash(sch)
+		}
+		all := 0
+		if q.AllFields {
+			all = 1
+		}
+		plan.Op = fmt.Sprintf("plan all=%d sel=%s schema=%s", all, joinOrDash(sel), schema)
 	}
 	var recorded []string
 	var schema *metric.Schema
@@ -295,10 +323,31 @@ func RunLeafRec(w *World, q *QueryDef, leaf *LeafDef, receivers []string) ([]*pr
 	}
 
 	if err := operator.NewMetadataLookup(lctx.StorageExecuteCtx, db).Execute(); err != nil {
+		plan.Out = "er"
+		if strings.Contains(err.Error(), "not found") {
+			plan.Out = "nf"
+		}
 		lctx.SendResponse(err)
-		return collect(), nil, nil
+		return collect(), nil, plan, nil
 	}
 	sctx := lctx.StorageExecuteCtx
+	{
+		var specs []string
+		for _, sp := range sctx.AggregatorSpecs {
+			var fns []int
+			for f := range sp.Functions() {
+				fns = append(fns, int(f))
+			}
+			sort.Ints(fns)
+			var fs []string
+			for _, f := range fns {
+				fs = append(fs, fmt.Sprint(f))
+			}
+			specs = append(specs, fmt.Sprintf("s:%s:%d:%s", sp.FieldName(), sp.GetFieldType(), joinOrDash(fs)))
+		}
+		sort.Strings(specs)
+		plan.Out = strings.Join(append([]string{"specs"}, specs...), " ")
+	}
 	// node-local tag value ids: dictionary per group-by key, ids assigned in first-seen order
 	// offset by a node-specific base (ids are node-local in lindb).
 	base := uint32(100 * (1 + len(leaf.Name)))
@@ -406,7 +455,7 @@ func RunLeafRec(w *World, q *QueryDef, leaf *LeafDef, receivers []string) ([]*pr
 		lctx.GroupingCtx.VerifSetGroupingTagValues(rev)
 	}
 	lctx.SendResponse(nil)
-	return collect(), recorded, nil
+	return collect(), recorded, plan, nil
 }
 
 // recordIterator renders one grouped iterator as `t:` / `f:` / `p:` tokens.
